@@ -459,12 +459,20 @@ func q3(w *World, r *Report) {
 		all["<other>"] = true
 		ev := func(in ssa.Instruction) string {
 			c, ok := in.(ssa.CallInstruction)
-			if !ok || callName(c.Common()) != "Query" {
+			if !ok {
 				return ""
 			}
 			rcv, args := callRecvArgs(c.Common())
 			if c.Common().IsInvoke() {
 				rcv = c.Common().Value
+			}
+			if callName(c.Common()) != "Query" {
+				// a handler value chosen by the switch and called afterwards
+				f, brcv := w.CalleeOnPath(c)
+				if f == nil || f.Name() != "Query" || brcv == nil || c.Common().StaticCallee() != nil {
+					return ""
+				}
+				rcv, args = brcv, c.Common().Args
 			}
 			if rcv == nil || !strings.HasPrefix(w.Canon(rcv), "recv.") {
 				return ""
@@ -498,7 +506,9 @@ func q3(w *World, r *Report) {
 				}
 				return (constant.StringVal(cst.Value) == ps) == (bo.Op == token.EQL), true
 			}
+			w.psEvents = true
 			paths, _ := w.enumPaths(fn, eval, ev, 2000)
+			w.psEvents = false
 			for _, p := range paths {
 				for _, e := range p.Events {
 					if strings.HasPrefix(e, "Q:") {
